@@ -6,6 +6,7 @@ import numpy as np
 import common as C
 import gen as G
 import verde as vd
+from props import large as L
 
 ID = "C01"
 TRANSLATED = "fit"         # Gen/Fit.lean (Trend.fit, Spline.fit as specifications over Gen/Trend, Gen/Loops, Gen/LeastSquares) is regenerated from /repo; Props/C01.lean proves polynomial reproduction / exactness end to end
@@ -88,6 +89,11 @@ def mk_exact(which, es, ns, shape2d, data, params, kind):
 
 
 def corpus():
+    return _corpus() + [L.case("predict_in_pieces", ["spline-many-forces", 70001, 3, "float64"], "corpus-large-queries"),
+                       L.case("predict_in_pieces", ["spline-many-forces", 4200, 4, "float64"], "corpus-large-queries")]
+
+
+def _corpus():
     import random
     rng = random.Random(1)
     es, ns = pts(rng, 9, 1.0, 0.0)
@@ -98,6 +104,11 @@ def corpus():
                           ("linear", {"rescale": False}), ("cubic", {"rescale": True}), ("chain-trend-spline", {}), ("vector-of", {}),
                           ("chain-trend-knn", {})):
         cs.append(mk_exact(which, es, ns, [9], [d, d[::-1]], params, "corpus-" + which))
+    # tiny point sets at unit spacing (pixel indices as coordinates): the documented kernel r^2 (ln r - 1) is -1 there, the systems are well posed
+    for ue, un, ud in (([3.0, 4.0], [7.0, 7.0], [1.5, -2.0]), ([0.0, 1.0, 2.0], [5.0, 5.0, 5.0], [2.0, -1.0, 4.5]), ([2.0, 2.0], [0.0, 1.0], [3.0, 3.5]),
+                       ([0.0, 1.0, 0.0], [0.0, 0.0, 1.0], [1.0, 2.0, 4.0])):
+        for which in ("spline", "chain-trend-spline") if len(ue) > 2 else ("spline",):
+            cs.append(mk_exact(which, ue, un, [len(ue)], [ud, ud[::-1]], {}, "corpus-unit-distances-" + which))
     di = [float(rng.randint(-40, 40)) for _ in es]
     for which in ("chain-trend-knn", "chain-trend-spline", "vector-of", "knn", "linear"):
         cs.append(mk_exact(which, es, ns, [9], [di, di[::-1]], {"rescale": False} if which == "linear" else {}, "corpus-intdata-" + which))
@@ -191,6 +202,9 @@ def build(which, params):
 
 
 def impl(case):
+    if case["fn"] == "large":
+        r = C.call(L.run, case["args"])
+        return r if C.is_err(r) else ["large", r]
     a = case["args"]
 
     def run():
@@ -303,6 +317,8 @@ SOLVER_CUTOFF_COND = 1e5
 
 
 def compare(case, io, mo):
+    if case["fn"] == "large":
+        return "diff:implementation failed: " + io[1] if C.is_err(io) else "ok"
     if C.is_err(io):
         return "diff:implementation failed: " + io[1]
     r = io[1]
@@ -355,6 +371,8 @@ def compare(case, io, mo):
 
 
 def oracle(case, io):
+    if case["fn"] == "large":
+        return (io[1] or None) if not C.is_err(io) else "failed: " + io[1]
     if C.is_err(io):
         return "fit/predict failed: " + io[1]
     r = io[1]
@@ -396,6 +414,8 @@ def oracle(case, io):
 
 
 def nontrivial(case, io):
+    if case["fn"] == "large":
+        return not C.is_err(io)
     return (not C.is_err(io)) and len(case["args"][1]) >= 3
 
 
